@@ -18,12 +18,12 @@ PROP_FILE = "Props/Properties_C17.v"
 LEVEL = "proof"
 ASSUMPTIONS = [
     "C17 (contexts): proved on the state machine of Cfg/Cfg.v for ALL operation histories; the machine is tied to lib/cfg.c by the correspondence (exhaustive short histories + random long ones). Use of a freed context (undefined behaviour) is not modelled: the harness never does it, the model skips such operations. Allocation failure in jose_cfg() and wrap-around of the size_t reference count are not modelled",
-    "C17 (contexts): Cfg.v has two variants of jose_cfg_get_err_misc (Current: returns the handler, as the code does; Fixed: returns misc). Each run probes the implementation (history c0;s0,1,1;g0) and runs the model in the variant the code exhibits; C17_get_misc_fixed_model is a theorem about the Fixed variant only, C17_get_misc_refuted about the Current one",
+    "C17 (contexts): Cfg.v carries two flags for the places where the code departs from its header (jose_cfg_get_err_misc returns the handler / misc; jose_cfg_decref and jose_cfg_auto dereference / tolerate NULL). Each run probes the implementation (histories c0;s0,1,1;g0 and dN;aN) and runs the model with the flags the code exhibits; all other theorems hold for every flag setting, C17_get_misc_fixed_model needs get_returns_misc = true, C17_get_misc_refuted is about the code as it is",
     "C17 (contexts): the text printed by the default handler is compared through a 4-class model of getname(); strerror() texts are libc's (table in ocaml/d_cfg.ml for the errno values the generator uses)",
     "C17 (read-only calls): argument preservation is CHECKED DYNAMICALLY, not proved: the Gallina models of the read-only entry points work on immutable trees, where it holds by construction (C17_args_preserved_model says only that). The `pure` harness command deep-copies every argument, calls the C function and compares value (json_equal and sorted compact dump) and the reference count of every node of every argument; the model side is the specification 'one = per argument'. Only the prologues of jose_jws_hdr/jose_jwe_hdr have an ownership model (Cfg/Pure.v)",
     "C17 (read-only calls): inputs are objects produced by the library itself (HS256, RS256, A128KW, dir, ECDH-ES, multi-signature, multi-recipient) and structural mutations of them; other algorithms' unwrap/verify paths (PBES2, RSA-OAEP, AES-GCMKW, ES*, PS*) are exercised only through key mismatch",
     "C17 (threads) PARTIAL: C17_schedule_free is proved for abstract threads under a footprint premise (each thread writes only its own component; its step depends only on that component and a read-only shared one). That the C code satisfies the premise is NOT proved (no concurrent C semantics): it is checked dynamically by comparing the results of 2..16 threads with the same operation sequences run one after another, and, in the thorough tier, by ThreadSanitizer on the library's own code (OpenSSL, jansson and libc are not instrumented)",
-    "C17 (threads): the registries of lib/hooks.c are written only by load-time constructors (before main); this is read from the source, and TSan would report a later write",
+    "C17 (threads): 'the registries of lib/hooks.c are written only by load-time constructors' and 'there is no other mutable object with static storage in lib/' are re-read from the source text on every run by a regular-expression scan of static declarations (not a clang AST scan): a new non-const static outside a constructor is reported as hidden-state (without a failing input); TSan would report a later write in the thorough tier",
 ]
 
 SUBST = [None, True, 7, 1.5, "x", [1, {"a": 2}], {"a": [1]}]
@@ -45,14 +45,29 @@ SMALL = ["c0", "c1", "d0", "d1", "i0", "i1", "g0", "g1", "e0,101", "e1,102", "eN
         ["s%d,%d,%d" % (c, h, m) for c in (0, 1) for h in (0, 1, 2) for m in (1, 2)]
 
 
+SMALLER = ["c0", "c1", "d0", "d1", "g0", "g1", "e0,101", "e1,102", "eN,103", "s0,1,1", "s0,0,2", "s1,2,2", "s1,1,1"]
+
+
 def cfg_gen(tier, rnd):
     dist = collections.Counter()
     hist = [WITNESS]
-    maxlen = 4 if tier == "quick" else 5
-    for n in range(1, maxlen + 1):
+    for n in range(1, 5):
         for combo in itertools.product(SMALL, repeat=n):
             hist.append(";".join(combo))
-    dist["cfg: all histories of length <= %d over %d operations (2 contexts x {NULL,2 handlers} x 2 user pointers)" % (maxlen, len(SMALL))] = len(hist) - 1
+    dist["cfg: all histories of length <= 4 over %d operations (2 contexts x {NULL,2 handlers} x 2 user pointers)" % len(SMALL)] = len(hist) - 1
+    if tier != "quick":
+        n0 = len(hist)
+        for combo in itertools.product(SMALLER, repeat=5):
+            hist.append(";".join(combo))
+        dist["cfg: all histories of length 5 over %d operations" % len(SMALLER)] = len(hist) - n0
+    # both contexts alive and registered (every handler / pointer combination), then every short continuation
+    n0 = len(hist)
+    for h0, m0, h1, m1 in itertools.product((0, 1, 2), (1, 2), (0, 1, 2), (1, 2)):
+        pre = "c0;c1;s0,%d,%d;s1,%d,%d" % (h0, m0, h1, m1)
+        for n in range(1, 3):
+            for combo in itertools.product(SMALL, repeat=n):
+                hist.append(pre + ";" + ";".join(combo))
+    dist["cfg: two live registered contexts (36 registrations) followed by all continuations of length <= 2"] = len(hist) - n0
     codes = [0, 1, 2, 12, 13, 22, 100, 101, 102, 103, 104, 105, 106, 107, 163]
     for _ in range(1500 if tier == "quick" else 30000):
         n = rnd.randint(5, 30)
@@ -83,7 +98,8 @@ def cfg_gen(tier, rnd):
     for op in ("dN", "aN", "sN,1,1", "gN"):
         hist.append(op)
         hist.append("c0;s0,1,1;e0,101;" + op + ";e0,102")
-        dist["cfg: NULL context handed to a function that dereferences it"] += 2
+        hist.append(op + ";eN,101;c1;e1,102;g1")      # whatever NULL does, the default context must not change
+        dist["cfg: NULL context handed to a function that dereferences it"] += 3
     return ["cfg\t" + h for h in hist], dist
 
 
@@ -132,7 +148,8 @@ def cfg_oracle(case, out):
             if k != "N":
                 held[k] += 1
         elif o[0] in "da":
-            held[k] -= 1
+            if k != "N":
+                held[k] -= 1
         elif o[0] == "s":
             reg[k] = (int(args[0]), int(args[1]))
         elif o[0] == "g":
@@ -179,7 +196,20 @@ def materials(bdir):
                        env=dict(os.environ, **vlib.SAN_ENV), timeout=120)
     if r.returncode != 0:
         raise RuntimeError("c17mk failed: " + r.stderr[-300:])
-    return json.loads(r.stdout)
+    mat = json.loads(r.stdout)
+    failed = list(mat.get("failed", []))
+    J, E = mat["jws"], mat["jwe"]
+    # a multi-key production that failed: fall back to a general-form object assembled by hand
+    if J.get("multi") is None and J.get("HS256") and J.get("RS256"):
+        J["multi"] = {"payload": J["HS256"]["payload"],
+                      "signatures": [{k: v for k, v in J[a].items() if k != "payload"} for a in ("HS256", "RS256")]}
+    if E.get("multi") is None and E.get("A128KW"):
+        e = dict(E["A128KW"])
+        ek = e.pop("encrypted_key", None)
+        e["recipients"] = [{"header": {"x": "shared"}, "encrypted_key": ek}, {"header": {"alg": "ECDH-ES+A128KW"}, "encrypted_key": ek}]
+        E["multi"] = e
+    missing = [k for grp in ("jws", "jwe", "cek") for k, v in mat[grp].items() if v is None]
+    return mat, failed, missing
 
 
 def paths(v, depth=3, pre=()):
@@ -418,17 +448,19 @@ def pure_oracle(case, out):
         argname = {"ver": ["jws", "sig", "jwk"], "dec": ["jwe", "rcp", "jwk"], "dec_jwk": ["jwe", "rcp", "jwk"], "jwe_hdr": ["jwe", "rcp"],
                    "dec_cek": ["jwe", "cek"], "eql": ["a", "b"], "exc": ["prv", "pub"], "sig_tmpl": ["sig (template)", "jwk (array)"],
                    "encjwk_tmpl": ["rcp (template)", "jwk (array)"]}.get(fn, ["argument"])[idx.index(i)]
+        if fn == "jws_hdr":
+            argname = "sig"
         if t.startswith("R"):
             try:
                 val = json.loads(f[i])
             except Exception:
                 val = None
-            if fn in ("ver", "jws_hdr") and argname in ("jws", "sig", "argument") and counted_protected(val):
+            if t.startswith("R-") and fn in ("ver", "jws_hdr") and argname in ("jws", "sig", "argument") and counted_protected(val):
                 return ("pure-refs:jose_jws_hdr:protected",
                         "jose_jws_hdr drops a reference it does not own: with a \"protected\" member that is an integer, real or array "
                         "(json_auto_t on the pointer borrowed from json_object_get) the caller's node loses %s reference(s) per call; "
                         "reached through %s with %s = %s -> token %s (the caller's object then holds a dangling pointer: use after free / double free when it is released)"
-                        % (t[2:] if t[1] == "-" else t[1:], PURE_CALL[fn], argname, f[i][:200], t))
+                        % (t[2:], PURE_CALL[fn], argname, f[i][:200], t))
             return ("pure-refs:%s:%s" % (fn, argname),
                     "%s changed the reference count of a node of its argument %s by %s (value unchanged); case %s" % (PURE_CALL[fn], argname, t[1:], case[:400]))
         return ("pure-modified:%s:%s" % (fn, argname),
@@ -479,11 +511,11 @@ def tsan_run(ctx, cases, rep):
     inlib = 0
     for r in reports:
         kind = r.split("\n")[0]
-        frames = re.findall(r"#\d+ (\S+) (/repo/\S+?):(\d+)", r)
+        frames = re.findall(r"#\d+ (\S+) (" + re.escape(vlib.REPO.rstrip("/")) + r"/\S+?):(\d+)", r)
         if kind.startswith("data race") and frames:
             inlib += 1
             fnn, path, ln = frames[0]
-            rep.violation("tsan-race:%s:%s" % (path.replace("/repo/", ""), fnn),
+            rep.violation("tsan-race:%s:%s" % (os.path.relpath(path, vlib.REPO), fnn),
                           "ThreadSanitizer: data race inside the library, first library frame %s (%s:%s), while independent operations ran on distinct objects" % (fnn, path, ln),
                           {"cases": cases[:5], "report": "WARNING: ThreadSanitizer: " + r[:3000],
                            "replay_cmd": "printf '%s\\n' | TSAN_OPTIONS=halt_on_error=0 _work/build-tsan/h" % cases[0].replace("\t", "\\t")})
@@ -494,6 +526,54 @@ def tsan_run(ctx, cases, rep):
     info = {"tsan cases": len(cases), "tsan reports": len(reports), "tsan data races with a frame in /repo": inlib,
             "tsan reports elsewhere (uninstrumented OpenSSL/jansson/libc, not counted)": len(reports) - inlib}
     return info
+
+
+# ------------------------------------------------------------------------------------ part C: source scan
+
+# objects with static storage that are not const: the only candidates for state shared between calls / threads
+STATIC_OK = {
+    ("lib/hooks.c", "jwks"): "head of the key-type registry: written only by jose_hook_jwk_push, called from load-time constructors",
+    ("lib/hooks.c", "algs"): "head of the algorithm registry: written only by jose_hook_alg_push, called from load-time constructors",
+    ("lib/openssl/lock.c", "locks"): "OpenSSL < 1.1.0 locking callbacks only (compiled out here); set up in a constructor",
+}
+DECL = re.compile(r"^(\s*)static\s+(?!const\b)(?!inline\b)([^(){};=]*?)(\w+)\s*(\[[^\]]*\])?\s*(=|;)")
+
+
+def static_scan(rep):
+    found = []
+    for path in vlib.lib_sources():
+        rel = os.path.relpath(path, vlib.REPO)
+        lines = open(path, errors="replace").read().split("\n")
+        for i, l in enumerate(lines):
+            m = DECL.match(l)
+            if not m or "typedef" in l or " const " in " " + m.group(2) + " ":
+                continue
+            name = m.group(3)
+            where = "file scope"
+            ok = None
+            if m.group(1):      # inside a function: find its header
+                j = i
+                while j > 0 and not lines[j].startswith("{"):
+                    j -= 1
+                hdr = " ".join(lines[max(0, j - 3):j])
+                where = "function " + (lines[j - 1].split("(")[0] if j > 0 else "?")
+                if "__attribute__((constructor))" in hdr:
+                    ok = "table filled in a load-time constructor (its .next links are written by the push functions before main)"
+            if ok is None:
+                ok = STATIC_OK.get((rel, name))
+            if ok is None and not m.group(4):
+                # a scalar that is never assigned and whose address is never taken is constant in effect
+                rest = "\n".join(lines[:i] + lines[i + 1:])
+                wr = re.search(r"(?<![\w.>])%s\s*(=(?!=)|\+\+|--|[-+*/|&^]=|<<=|>>=)|(\+\+|--|&)\s*%s\b" % (name, name), rest)
+                if not wr:
+                    ok = "never assigned, address never taken: constant in effect (could be declared const)"
+            found.append((rel, i + 1, name, where, ok))
+            if ok is None:
+                rep.violation("hidden-state:%s:%s" % (rel, name),
+                              "%s:%d declares a non-const object with static storage (%s, %s) outside the load-time constructors: state shared by all calls and all threads; the footprint premise of C17_schedule_free is no longer supported by the source" % (rel, i + 1, name, where),
+                              {"file": rel, "line": i + 1, "declaration": l.strip()}, found=False)
+    return {"source scan: non-const static objects in lib/": len(found),
+            "source scan: of these, in load-time constructors, the registry heads, or never written": sum(1 for f in found if f[4])}
 
 
 # ------------------------------------------------------------------------------------ flow
@@ -518,25 +598,40 @@ def correspond(ctx):
     rnd = random.Random(ctx["seed"] * 1000003 + 17)
     h = os.path.join(ctx["bdir"], "h")
 
-    # which jose_cfg_get_err_misc does the code have?  (selects the model variant, like a generated table)
-    probe = vlib.run_cases(h, ["cfg\t" + WITNESS])[0]
-    variant = "fixed" if probe.split(" ")[-1] == "1" else "current"
+    # which variant of the two departures does the code have?  (selects the model's flags, like a generated table)
+    probe = vlib.run_cases(h, ["cfg\t" + WITNESS, "cfg\tdN;aN"])
+    variant = ("m" if probe[0].split(" ")[-1] == "1" else "h") + ("o" if probe[1] == ". ." else "c")
 
     ccases, cdist = cfg_gen(tier, rnd)
-    maxlen = 4 if tier == "quick" else 5
     s1 = runner.standard(
         ctx, ccases, cfg_oracle,
         lambda c, o: (" h" in " " + o) or "default(" in o,
         rule="cfg: operation histories on real contexts with logging handlers vs. the state machine (variant: %s); non-trivial = at least one report was delivered" % variant,
         dist=dict(cdist), model_cases=[c + "\t" + variant for c in ccases], normalize=cfg_normalize,
-        exhaustive_subspaces=["all context histories of length <= %d over %d operations" % (maxlen, len(SMALL))])
+        exhaustive_subspaces=["all context histories of length <= 4 over %d operations" % len(SMALL)] +
+                             (["all context histories of length 5 over %d operations" % len(SMALLER)] if tier != "quick" else []) + [
+                              "all continuations of length <= 2 after each of the 36 registrations of two live contexts"])
 
-    mat = materials(ctx["bdir"])
-    pcases, pdist = pure_gen(tier, rnd, mat)
-    s2 = runner.standard(
-        ctx, pcases, pure_oracle, lambda c, o: VERDICT.get(c) == "T",
-        rule="pure: every read-only entry point on library-made and mutated arguments; per argument value (json_equal + dump) and per-node reference counts before/after vs. the specification (all '='); non-trivial = the call succeeded",
-        dist=dict(pdist), normalize=pure_normalize)
+    s2 = {"evaluations": 0, "distinct_nontrivial": 0, "disagreements": 0, "first_disagreements": [], "samples": [],
+          "dist": {}, "exhaustive_subspaces": [], "rule": "pure: not run (the library could not produce the inputs)"}
+    try:
+        mat, failed, missing = materials(ctx["bdir"])
+    except Exception as e:      # key generation itself failed
+        mat, failed, missing = None, [], ["everything"]
+        rep.violation("pure-materials", "the harness could not produce keys and tokens with the library: %s" % e,
+                      {"replay_cmd": "_work/build-san/h c17mk"}, found=False)
+    for w in failed:
+        multi = w.startswith("multi")
+        rep.violation("pure-materials:" + w,
+                      "the library failed to produce a valid object for the read-only checks: %s%s" %
+                      (w, " (one call with a key array and ONE template object: the template is documented to be copied per key; a failure here is what a template modified by the first key looks like)" if multi else ""),
+                      {"replay_cmd": "_work/build-san/h c17mk   # see the \"failed\" member"})
+    if mat is not None and not missing:
+        pcases, pdist = pure_gen(tier, rnd, mat)
+        s2 = runner.standard(
+            ctx, pcases, pure_oracle, lambda c, o: VERDICT.get(c) == "T",
+            rule="pure: every read-only entry point on library-made and mutated arguments; per argument value (json_equal + dump) and per-node reference counts before/after vs. the specification (all '='); non-trivial = the call succeeded",
+            dist=dict(pdist), normalize=pure_normalize)
 
     tcases, tdist = threads_gen(tier, rnd)
     s3 = runner.standard(
@@ -545,12 +640,13 @@ def correspond(ctx):
         dist=dict(tdist))
 
     st = merge([s1, s2, s3])
-    st["dist"]["cfg: model variant selected by probing jose_cfg_get_err_misc"] = variant
+    st["dist"]["cfg: model variant selected by probing (h|m = get_err_misc returns handler|misc, c|o = decref(NULL) crashes|ok)"] = variant
+    st["dist"].update(static_scan(rep))
     if tier == "thorough":
         st["dist"].update(tsan_run(ctx, tcases, rep))
         st["evaluations"] += len(tcases)
     refuted = ["C17_jws_hdr_refs_refuted"] if any(v[0] == "pure-refs:jose_jws_hdr:protected" for v in rep.violations) else []
-    if variant == "current":
+    if variant[0] == "h":
         refuted.insert(0, "C17_get_misc_refuted")
     st["refuted"] = refuted
     return st
